@@ -247,10 +247,14 @@ class Gen:
             if T_BOOL in self.bytype and k < 0.4:
                 base = self.col(T_BOOL)
             else:
-                for _ in range(6):
-                    base = self.gen_bool(max(d, 1) - 1)
-                    if base.cols:
-                        break
+                p, self.unary_chains = self.unary_chains, 0.0     # no run inside the operand of a run: the nesting stays bounded
+                try:
+                    for _ in range(6):
+                        base = self.gen_bool(max(d, 1) - 1)
+                        if base.cols:
+                            break
+                finally:
+                    self.unary_chains = p
         e = base
         n = length or self.rng.choice([2, 2, 2, 3, 3, 4])
         for i in range(n):
